@@ -203,6 +203,35 @@ def _is_local_assign(stmt, protected):
     return _harmless_expr(val)
 
 
+def _inline_guard_temps(fn, body):
+    """`x = <expr>` directly followed by `if <test using x>: raise ...`, `x` used nowhere else in the function
+    -> the `if` with `<expr>` substituted (a harmless way of writing the same guard)"""
+    uses = {}
+    for n in ast.walk(fn):
+        if isinstance(n, ast.Name):
+            uses[n.id] = uses.get(n.id, 0) + 1
+    out, i = [], 0
+    while i < len(body):
+        st = body[i]
+        nxt = body[i + 1] if i + 1 < len(body) else None
+        if (isinstance(st, ast.Assign) and len(st.targets) == 1 and isinstance(st.targets[0], ast.Name)
+                and uses.get(st.targets[0].id) == 2 and nxt is not None and _guard_if(nxt) is not None
+                and sum(1 for n in ast.walk(nxt.test) if isinstance(n, ast.Name) and n.id == st.targets[0].id) == 1):
+            var, val = st.targets[0].id, st.value
+
+            class _Sub(ast.NodeTransformer):
+                def visit_Name(self, node):
+                    return val if node.id == var and isinstance(node.ctx, ast.Load) else node
+            new_if = ast.If(test=_Sub().visit(nxt.test), body=nxt.body, orelse=[])
+            ast.copy_location(new_if, nxt)
+            out.append(ast.fix_missing_locations(new_if))
+            i += 2
+            continue
+        out.append(st)
+        i += 1
+    return out
+
+
 def classify_cmd_epr(fn):
     """-> (list of (kind, line, source text)), name variable or None"""
     out = []
@@ -213,7 +242,7 @@ def classify_cmd_epr(fn):
         for _ in range(n):
             out.append((kind, stmt.lineno, txt))
 
-    for stmt in _without_docstring(fn.body):
+    for stmt in _inline_guard_temps(fn, _without_docstring(fn.body)):
         if rname is None:
             r = _match_lookup_loop(stmt)
             if r is not None:
